@@ -487,6 +487,28 @@ def loops_adding_records(ctx: Ctx, q):
     return out
 
 
+def expr_closure_text(fi, e, depth=0):
+    """Text of the expression plus, transitively, of everything assigned to / appended into the local names it mentions."""
+    from ..mutation import all_assignments
+
+    seen, out, stack = set(), [norm(e)], [x.id for x in ast.walk(e) if isinstance(x, ast.Name)]
+    while stack:
+        nme = stack.pop()
+        if nme in seen or nme in ("self",):
+            continue
+        seen.add(nme)
+        srcs = [d for d in all_assignments(fi.node, nme) if d is not None]
+        for n in walk_function(fi.node):
+            if isinstance(n, ast.Call) and isinstance(n.func, ast.Attribute) and n.func.attr in ("extend", "append", "update", "add") and norm(n.func.value) == nme:
+                srcs += list(n.args)
+            if isinstance(n, (ast.For, ast.comprehension)) and any(isinstance(x, ast.Name) and x.id == nme for x in ast.walk(n.target)):
+                srcs.append(n.iter)
+        for d in srcs:
+            out.append(norm(d))
+            stack += [x.id for x in ast.walk(d) if isinstance(x, ast.Name)]
+    return " ".join(out)
+
+
 @rule("C09", "C09.R1", "conservation loops: every record (bundle) of the source reaches add_record (update) on every iteration, from an unfiltered source", 5, family="F-PATH",
       decides="flattened / update / construction from records never drop or skip a record")
 def c09_r1(ctx: Ctx, rule):
@@ -528,7 +550,7 @@ def c09_r1(ctx: Ctx, rule):
     fi = ctx.fn(q)
     rl, ix, ft = bundle_slots(ctx)
     for loop, adds in loops_adding_records(ctx, q):
-        txt = norm(loop.iter) + " " + " ".join(norm(resolve_local(fi.node, x)) for x in ast.walk(loop.iter) if isinstance(x, ast.Name))
+        txt = expr_closure_text(fi, loop.iter)
         own = rl in txt or "self.records" in txt or "self.get_records" in txt
         bundles = "_bundles" in txt or "self.bundles" in txt
         res.ob("flattened walks the document's own records (%s) and its bundles' records (%s)" % (own, bundles))
